@@ -301,7 +301,54 @@ def stepCanon (st : DState) (e : Sexp) : Option (DState × String) :=
     pure (st, showTys (succT L o up t))
   | _ => none
 
+def showNode : Node → String
+  | .tf n => "tf:" ++ n
+  | .ns n => "ns:" ++ n
+  | .rdf n => "rdf:" ++ n
+  | .rdfs n => "rdfs:" ++ n
+  | .b k => "_:" ++ toString k
+
+def showTriples (ts : List Triple) : String :=
+  " ".intercalate (sortStrs (ts.map (fun t => "(" ++ showNode t.1 ++ " " ++ showNode t.2.1 ++ " " ++ showNode t.2.2 ++ ")")))
+
+def showGErr : GErr → String
+  | .nonCanonical => "NonCanonicalTypeError"
+  | .unexpectedVariable => "UnexpectedVariableError"
+  | .internal s => "Internal(" ++ s ++ ")"
+
+def gcfgOfBits (bs : List Bool) : GCfg :=
+  let b (i : Nat) := bs.getD i true
+  { withOperators := b 0, withTypes := b 1, withSupertypes := b 2, withIntermediateTypes := b 3, withMembership := b 4,
+    withMembershipSupertypes := b 5, withTypeParameters := b 6, withClasses := b 7, withCanonicalTypes := b 8,
+    withNoncanonicalTypes := b 9, withSupertypeClasses := b 10, withWorkflowOrigin := b 11, withDependencies := b 12 }
+
+def DState.glang (st : DState) : GLang := { types := st.lang, cfg := st.canonCfg, canon := st.canon }
+
+def stepGraph (st : DState) (e : Sexp) : Option (DState × String) :=
+  match e with
+  | .list [.atom "gexpr", .atom bits, n, s] => do
+    let n ← Sexp.nat? n
+    let s ← Sexp.str? s
+    let cfg := gcfgOfBits (bits.toList.map (· == 'T'))
+    let toks := tokenize Generated.exprSpecials Generated.blanks s
+    let (s0, inputs) := mkInputs n {}
+    match parseExprToks st.plang (typedBuilder st.lang st.ops true) inputs s0 toks with
+    | .error e => pure (st, "E:" ++ showPErrT e)
+    | .ok (xs, ex) =>
+      match fixExpr st.lang xs.store ex with
+      | .error err => pure (st, "E:" ++ showErr err)
+      | .ok (_, ex') =>
+        let g0 := initGraph st.glang cfg
+        let (g1, r) := g0.fresh
+        match addExpr st.glang cfg (.b r) none g1 ex' none false with
+        | .error ge => pure (st, "E:" ++ showGErr ge)
+        | .ok (g, out) => pure (st, s!"ok root _:{r} out _:{out} " ++ showTriples g.allTriples)
+  | _ => none
+
 def step (st : DState) (e : Sexp) : DState × String :=
+  match stepGraph st e with
+  | some r => r
+  | none =>
   match stepCanon st e with
   | some r => r
   | none =>
